@@ -19,6 +19,7 @@ package patch
 import (
 	"errors"
 	"fmt"
+	"slices"
 
 	"github.com/rkosegi/yaml-toolkit/dom"
 )
@@ -178,15 +179,28 @@ func moveOrCopy(obj *OpObj, target dom.ContainerBuilder, move bool) error {
 		return err
 	}
 	if move {
+		if slices.Equal(*obj.From, obj.Path) {
+			// node is already where it should be
+			return nil
+		}
+		// The "from" location MUST NOT be a proper prefix of the "path"
+		//   location; i.e., a location cannot be moved into one of its children.
+		if len(*obj.From) < len(obj.Path) && slices.Equal(*obj.From, obj.Path[:len(*obj.From)]) {
+			return fmt.Errorf("can't move node at path %s into its own child %s", obj.From.String(), obj.Path.String())
+		}
 		_ = doRemove(&OpObj{
 			Path: *obj.From,
 		}, target)
-	} else {
-		// copied value must not share state with the source
-		n = n.Clone()
+		// target location is resolved against document with "from" location already removed (list items could be shifted),
+		// so it can't be fully validated upfront. If it turns out to be invalid, put removed node back so that
+		// failed operation leaves document unchanged.
+		if err = doAdd(&OpObj{Value: n, Path: obj.Path}, target); err != nil {
+			_ = doAdd(&OpObj{Value: n, Path: *obj.From}, target)
+		}
+		return err
 	}
-
-	return doAdd(&OpObj{Value: n, Path: obj.Path}, target)
+	// copied value must not share state with the source
+	return doAdd(&OpObj{Value: n.Clone(), Path: obj.Path}, target)
 }
 
 func doTest(obj *OpObj, target dom.ContainerBuilder) error {
